@@ -26,6 +26,8 @@ type propConfig struct {
 
 var propConfigs = map[string]*propConfig{
 	"C20": {replay: replayUnpack, undecided: "panics inside String() methods reached only through logging (A-LOG)"},
+	"C05": {replay: replayC05},
+	"C29": {undecided: "real interleavings: atomicity is derived from the proved lock coverage plus A-MUTEX / A-ATOMICPKG, not explored"},
 }
 
 type knownFinding struct {
